@@ -402,6 +402,7 @@ Proof.
   simpl in A. destruct A as [<- [He0 [He1 Hr]]]. unfold dec_obs.
   unfold bytes_eqb. rewrite list_Z_eqb_refl. cbn [andb].
   assert (negb (e =? 0) = true) as -> by lia. cbn [andb].
+  rewrite (Z.eqb_refl e), andb_true_r.
   destruct ok.
   - rewrite (proj2 He1 eq_refl). rewrite (Hr eq_refl). simpl. apply Z.eqb_refl.
   - destruct (e =? 1) eqn:E1; [apply Z.eqb_eq in E1; apply He1 in E1; discriminate|]. reflexivity.
@@ -453,6 +454,7 @@ Proof.
   simpl in A. destruct A as [<- [He0 [He1 Hr]]]. unfold dec_obs.
   unfold bytes_eqb. rewrite list_Z_eqb_refl. cbn [andb].
   assert (negb (e =? 0) = true) as -> by lia. cbn [andb].
+  rewrite (Z.eqb_refl e), andb_true_r.
   destruct ok.
   - rewrite (proj2 He1 eq_refl). rewrite (Hr eq_refl). simpl. apply Z.eqb_refl.
   - destruct (e =? 1) eqn:E1; [apply Z.eqb_eq in E1; apply He1 in E1; discriminate|]. reflexivity.
